@@ -110,36 +110,39 @@ def gen_connect(rng):
 
 
 def gen_slow(rng):
-    """A scenario in which the 5 s unsubscribe wait-gate timeout fires (real time)."""
-    k = rng.random()
-    a = rand_sub(rng, "A", "a", pfail=0.05)
-    a["kind"] = "csub" if rng.random() < 0.7 else a["kind"]
-    if a["kind"] == "ssub" and not a["p"]:
-        a["p"] = 1      # a server-side subscribe can only be stalled at its presence gate
-    u = actor("U", rng.choice(UNSUBK), "a")
-    acts = [a, u]
-    sched = ["@A"]
-    if a["kind"] == "ssub":
-        pass
-    sched += ["@U"]
-    hold = rng.random() < 0.6
-    if hold:
+    """A scenario in which the 5 s unsubscribe wait-gate timeout fires (real time): a subscribe is stalled at one
+    of its gates (OnSubscribe / AddPresence / reply), an unsubscribe waits and times out, the force-close it spawns
+    is usually delayed (connectMu held = the `go c.close()` goroutine not scheduled yet), then a second unsubscribe
+    drops the dead reservation, a fresh subscribe re-reserves the channel and the stalled one resumes."""
+    kind = "csub" if rng.random() < 0.75 else "ssub"
+    p = 1 if kind == "ssub" else rng.randint(0, 1)
+    a = actor("A", kind, "a", p, rng.randint(0, 1))
+    stall = rng.randint(1, 3 if (kind == "csub" and p) else (2 if kind == "csub" else 1))
+    acts = [a, actor("U", rng.choice(UNSUBK), "a")]
+    sched = ["@A"] * stall + ["@U"]
+    if rng.random() < 0.8:
         sched.append("H")
     sched.append("T")
-    extra = []
-    if k < 0.5:
-        extra.append(actor("V", rng.choice(UNSUBK), "a"))
-    if k > 0.3:
-        extra.append(rand_sub(rng, "B", "a", pfail=0.0))
-    if rng.random() < 0.3:
-        extra.append(actor("C", "close"))
-    acts += extra
-    ids = [x["id"] for x in acts] + ["x1"]
-    for _ in range(rng.choice([2, 5, 9, 14])):
+    tail_ids = ["A", "U", "x1"]
+    if rng.random() < 0.85:
+        acts.append(actor("V", rng.choice(UNSUBK), "a"))
+        tail_ids.append("V")
+    if rng.random() < 0.8:
+        bk = rng.choice(SUBK)
+        acts.append(actor("B", bk, "a", rng.randint(0, 1), rng.randint(0, 1)))
+        tail_ids.append("B")
+    if rng.random() < 0.2:
+        acts.append(actor("C", "close"))
+        tail_ids.append("C")
+    shape = rng.random()
+    if shape < 0.5 and "V" in tail_ids and "B" in tail_ids:
+        # the canonical order: timed-out unsubscribe returns, V drops the reservation, B reserves, then a random race
+        sched += ["@U", "@U", "@V", "@V", "@B"]
+    for _ in range(rng.choice([4, 8, 12, 18])):
         r = rng.random()
-        if r < 0.8:
-            sched.append("@" + rng.choice(ids))
-        elif r < 0.9:
+        if r < 0.85:
+            sched.append("@" + rng.choice(tail_ids))
+        elif r < 0.93:
             sched.append("R")
         else:
             sched.append(rng.randint(0, 3))
@@ -273,6 +276,7 @@ def oracle_c05(case):
 
 
 F1_MSG = "leave emitted before the join of the same subscription"
+F3_MSG = "two joins for one subscription (generations attributed by trace validation)"
 F2_MSG = "leave without join: server-side subscribe committed, its subscribe push failed on the closing connection, join skipped"
 
 
@@ -310,6 +314,14 @@ def oracle_c07(case):
                 return "join emitted for a subscription without join/leave emission"
             if n and a["id"] in failed:
                 return "join emitted for a failed subscribe attempt"
+    att = getattr(case, "attributed", None)
+    if att:
+        seenj = set()
+        for x in att:
+            if x[0] == "J":
+                if x[1:] in seenj:
+                    return F3_MSG
+                seenj.add(x[1:])
     for ch in case.spec["chans"]:
         seq = [x[0] for x in f["log"] if x[1:] == ch]
         bal = 0
@@ -342,7 +354,7 @@ def oracle_c07(case):
             key = x[1:]
             if x[0] == "J":
                 if key in seenj:
-                    return "two joins for one subscription (generations attributed by trace validation)"
+                    return F3_MSG
                 if key in seenl:
                     return F1_MSG
                 seenj.add(key)
@@ -360,9 +372,27 @@ def oracle_c07(case):
 ORACLES = {"C04": oracle_c04, "C05": oracle_c05, "C07": oracle_c07}
 
 
+def resumed_after_timeout(case):
+    """a subscribe attempt that was already in flight when a wait gate timed out passed one of its gates afterwards"""
+    started, tmo = set(), False
+    for e in case.events:
+        w = e.split()
+        if w[0] == "spawn" and w[2] in SUBK:
+            if not tmo:
+                started.add(w[1])
+        elif w[0] == "arrive" and w[2] == "tmolog":
+            tmo = True
+        elif w[0] == "pass" and tmo and w[1] in started and w[2] in ("onsub", "presadd", "reply"):
+            return True
+    return False
+
+
 def signature(prop, case, msg):
     tmo = any(" tmolog " in e for e in case.events)
-    return {"oracle": msg, "timeout": tmo}
+    sig = {"oracle": msg, "timeout": tmo}
+    if tmo:
+        sig["stalled_subscribe_resumed"] = resumed_after_timeout(case)
+    return sig
 
 
 # ------------------------------------------------------------------------------------------ running
